@@ -211,6 +211,153 @@ def segments(R, ctx, tier):
         R.require(rid, "%s|floor" % G.split("::")[-1], n >= 300, ctx.where(we), "%d segments evaluated" % n)
 
 
+NUM = N + "expressions::number::"
+
+
+def float_domain():
+    import math
+    import struct
+    vals = [0.0, -0.0, 1.0, -1.0, 0.1, 1 / 3, 2 / 3, 1e21, 1e22, 1e23, 1e-7, 1e-6, 5e-324, 1e-323, 2.2250738585072014e-308, 2.225073858507201e-308,
+            1.7976931348623157e308, 2.0 ** 53, 2.0 ** 53 + 2, 2.0 ** 53 - 1, 9007199254740993.0, 4.35, 0.3, 2.675, 9.999999999999999e22, 8.41e21,
+            123456789012345680000.0, 1e15, 1e16, 1e17, 1.5, 100.0, 1e300, 1e-300, 0.1 + 0.2, 3.141592653589793, 2.718281828459045, 1e100, 12345.678,
+            0.5, 0.25, 1e-5, 123456789.0, 1.7976931348623155e308, 4.9406564584124654e-324, 6.02214076e23, 299792458.0, -1.5e10, -123.456]
+    vals += [2.0 ** k for k in range(-1074, 1024, 9)]
+    vals += [float("1e%d" % k) for k in range(-323, 309, 4)]
+    vals += [float("%de%d" % (d, k)) for d in (3, 7, 9) for k in range(-320, 300, 37)]
+    # neighbours of powers of ten (shortest-representation hard cases)
+    for k in range(-300, 301, 25):
+        x = float("1e%d" % k)
+        b = struct.unpack("<Q", struct.pack("<d", x))[0]
+        vals += [struct.unpack("<d", struct.pack("<Q", b + d))[0] for d in (-1, 1)]
+    return vals + [math.inf, -math.inf, math.nan]
+
+
+def same_double(a, b):
+    import math
+    import struct
+    if math.isnan(a) or math.isnan(b):
+        return math.isnan(a) and math.isnan(b)
+    return struct.pack("<d", a) == struct.pack("<d", b)
+
+
+def _number_chunk(job):
+    gi, nodes = job
+    ctx = _CTX
+    lib = ctx.lib
+    G, new, nargs = generators(ctx)[gi]
+    we, fin = trait_fn(lib, G, "write_expression"), trait_fn(lib, G, "into_string")
+    from ..luaref import read_number_text
+    bad, n = None, 0
+    for label, build, want in nodes:
+        pe = peval.PEval(lib, ctx.an)
+        try:
+            gen = pe.call_fn(new, list(nargs))
+            pe.call_fn(we, [gen, Enum(EXPR, "Number", {"0": build_number(lib, build)})])
+            text = pe.call_fn(fin, [gen])
+        except peval.OutOfFuel:
+            text = UNKNOWN
+        n += 1
+        why = None
+        if not isinstance(text, str):
+            why = "not established %s" % pe.unknown_reasons[:2]
+        else:
+            try:
+                got = read_number_text(text)
+                if not same_double(got, want):
+                    why = "written %r reads back as %r" % (text.strip()[:50], got)
+            except LiteralError as e:
+                why = "written %r: %s" % (text.strip()[:50], e)
+        if why is not None and bad is None:
+            bad = (label, why)
+    return n, bad
+
+
+def build_number(lib, b):
+    from ..peval import some
+    kind = b[0]
+    if kind == "dec":
+        return Enum(NUM + "NumberExpression", "Decimal", {"0": make(lib, NUM + "DecimalNumber", {"float": b[1], "exponent": some(b[2]) if b[2] is not None else NONE, "token": NONE})})
+    if kind == "hex":
+        return Enum(NUM + "NumberExpression", "Hex", {"0": make(lib, NUM + "HexNumber", {"integer": b[1], "exponent": some(b[2]) if b[2] is not None else NONE, "is_x_uppercase": b[3], "token": NONE})})
+    return Enum(NUM + "NumberExpression", "Binary", {"0": make(lib, NUM + "BinaryNumber", {"value": b[1], "is_b_uppercase": b[2], "token": NONE})})
+
+
+def numbers_written(R, ctx, tier):
+    import math
+    rid = "C13.numbers-written"
+    lib = ctx.lib
+    R.rule(rid, "each generator, driven through LuaGenerator::write_expression on Expression::Number, evaluated from its typed tree (f64 as IEEE "
+                "doubles; Rust's `{}` / `{:e}` printing and str::parse::<f64> modelled in sa/floatfmt.py and validated against rustc): for "
+                "every double of the boundary classes (zeros of both signs, subnormals, powers of two and ten and their neighbours, 2^53 "
+                "neighbours, shortest-representation hard cases, infinities, NaN) x recorded exponent (none, small, large, out of i32, either "
+                "case), every u64 boundary value as hexadecimal (with and without a binary exponent) and binary: the text written reads "
+                "back, by an independent reader of Lua/Luau number syntax, as exactly the same double (sign of zero included)")
+    floats = float_domain()
+    exps = [None] + [(e, up) for e in (0, 1, -1, 2, 5, -5, 15, -15, 22, -22, 100, -100, 300, -300, 308, -308, -323, 2 ** 31, -2 ** 31 - 1) for up in (False, True)]
+    nodes = []
+    for i, x in enumerate(floats):
+        for ex in (exps if (tier == "thorough" or i % 4 == 0 or i < 60 or not math.isfinite(x)) else exps[:1] + exps[7:9]):
+            nodes.append(("Decimal(%r, exponent=%r)" % (x, ex), ("dec", x, ex), x))
+    ints = [0, 1, 9, 10, 15, 16, 255, 256, 2 ** 31, 2 ** 32 - 1, 2 ** 53, 2 ** 53 + 1, 2 ** 63, 2 ** 64 - 1, 0xDEADBEEF, 0xABCDEF]
+    for v in ints:
+        for up in (False, True):
+            nodes.append(("Hex(%#x)" % v, ("hex", v, None, up), float(v)))
+            nodes.append(("Binary(%#b)" % v if False else "Binary(%d)" % v, ("bin", v, up), float(v)))
+    for v, e in ((1, 4), (3, 0), (255, 10), (1, 52), (2 ** 20 + 1, 30)):
+        for up in (False, True):
+            nodes.append(("Hex(%#x p%d)" % (v, e), ("hex", v, (e, up), up), math.ldexp(float(v), e)))
+    gens = generators(ctx)
+    if not R.require(rid, "anchor:generators", len(gens) >= 3 and NUM + "DecimalNumber" in lib.adts, "", "generators / number node types not found"):
+        return
+    for gi, (G, new, nargs) in enumerate(gens):
+        mine = nodes if gi == 0 or tier == "thorough" else nodes[::5]
+        chunks = [(gi, mine[k:k + 150]) for k in range(0, len(mine), 150)]
+        bad, n = None, 0
+        for cn, cbad in pmap(_number_chunk, chunks):
+            n += cn
+            bad = bad or cbad
+        R.ob(rid, "%s|roundtrip" % G.split("::")[-1], bad is None, ctx.where(trait_fn(lib, G, "write_expression")),
+             "%d numbers read back as the same double" % n if bad is None else "%s: %s" % bad)
+        R.require(rid, "%s|floor" % G.split("::")[-1], n >= (1500 if gi == 0 or tier == "thorough" else 300), "", "%d numbers evaluated" % n)
+
+
+LITERALS = ["0", "1", "007", "10", "1.5", "1.", ".5", "0.1", "0.30000000000000004", "3.141592653589793", "1e5", "1E5", "1e+5", "1e-5", "1.5e10", "12.5E-3", ".5e1", "5.e1",
+            "9007199254740993", "18446744073709551616", "123456789012345678901234567890", "1e308", "1e309", "1.7976931348623157e308", "1.7976931348623159e308",
+            "4.9e-324", "2.4703282292062327e-324", "2.4703282292062328e-324", "5e-324", "1e-400", "0.000001", "0.0000001",
+            "1_000", "1_000.000_1", "1__2", "1_", "1_e5", "1e1_0", "1e5_", "1_._5" if False else "1_.5", "0_1", "1_0e1_0",
+            "0x0", "0x10", "0XfF", "0xff", "0xDEAD_beef", "0x_ff", "0xf_f", "0xff_", "0x7fffffffffffffff", "0xffffffffffffffff", "0x20000000000001",
+            "0b0", "0b1", "0B101", "0b1_0", "0b_11", "0b1111111111111111111111111111111111111111111111111111111111111111", "0_x10"]
+
+
+def numbers_read(R, ctx, tier):
+    rid = "C13.numbers-read"
+    lib = ctx.lib
+    from ..luaref import read_number_text
+    R.rule(rid, "NumberExpression::from_str followed by compute_value, evaluated from the typed tree on %d literals (decimal, fraction, exponent "
+                "of either case and sign, 17+ digit and out-of-range magnitudes, halfway cases near the smallest subnormal, hexadecimal and binary "
+                "up to 64 bits, underscores in every position Luau allows): the value equals what an independent reader of Luau's number "
+                "syntax gives, bit for bit" % len(LITERALS))
+    fs = lib.fn("<%sNumberExpression as core::str::traits::FromStr>::from_str" % NUM)
+    cv = lib.fn(NUM + "NumberExpression::compute_value")
+    if not R.require(rid, "anchor:from_str", fs is not None and cv is not None, "", "from_str / compute_value not found"):
+        return
+    bad, n = [], 0
+    for t in LITERALS:
+        pe = peval.PEval(lib, ctx.an)
+        try:
+            r = pe.call_fn(fs, [t])
+            v = pe.call_fn(cv, [r.fields["0"]]) if isinstance(r, Enum) and r.variant == "Ok" else r
+        except peval.OutOfFuel:
+            v = UNKNOWN
+        n += 1
+        want = read_number_text(t)
+        if not isinstance(v, (int, float)) or isinstance(v, bool) or not same_double(float(v), want):
+            bad.append((t, want, v if isinstance(v, (int, float)) else (repr(v)[:60], pe.unknown_reasons[:2])))
+    R.ob(rid, "from_str|value", not bad, ctx.where(fs), "%d literals get Luau's value" % n if not bad else "literal %r: Luau gives %r, darklua %r" % bad[0])
+    for b in bad[1:6]:
+        R.info("C13.numbers-read also: %r -> %r vs %r" % b)
+
+
 def run(R, ctx):
     R.explanation = (
         "The string writer is decided as a finite-state transducer: each generator's write_expression is evaluated from its typed tree "
@@ -222,3 +369,5 @@ def run(R, ctx):
     _CTX = ctx
     strings(R, ctx, R.tier)
     segments(R, ctx, R.tier)
+    numbers_written(R, ctx, R.tier)
+    numbers_read(R, ctx, R.tier)
